@@ -110,3 +110,43 @@ func PolicySatisfied(p types.SpendPolicy, height uint64, median time.Time, sigHa
 	e := &policyEval{height: height, median: median, sigHash: sigHash, sigs: sigs, pre: preimages}
 	return e.eval(p, true) && len(e.sigs) == 0 && len(e.pre) == 0
 }
+
+// UnlockHash is the address of legacy unlock conditions by definition: the
+// root of the Merkle tree whose leaves are the timelock, each key (algorithm,
+// length-prefixed key bytes) and the number of required signatures.
+func UnlockHash(uc types.UnlockConditions) types.Address {
+	leaf := func(data []byte) types.Hash256 { return Sum(append([]byte{0}, data...)) }
+	u64 := func(x uint64) []byte {
+		var w W
+		w.U64(x)
+		return w.B
+	}
+	leaves := []types.Hash256{leaf(u64(uc.Timelock))}
+	for _, k := range uc.PublicKeys {
+		var w W
+		w.UnlockKey(k)
+		leaves = append(leaves, leaf(w.B))
+	}
+	leaves = append(leaves, leaf(u64(uc.SignaturesRequired)))
+	return types.Address(TreeRoot(leaves))
+}
+
+// PolicyDepthOK reports whether no node of p has more than 32 ancestors (the
+// protocol's nesting limit for encoded policies).
+func PolicyDepthOK(p types.SpendPolicy) bool {
+	var walk func(p types.SpendPolicy, depth int) bool
+	walk = func(p types.SpendPolicy, depth int) bool {
+		if depth > 32 {
+			return false
+		}
+		if t, ok := p.Type.(types.PolicyTypeThreshold); ok {
+			for _, sp := range t.Of {
+				if !walk(sp, depth+1) {
+					return false
+				}
+			}
+		}
+		return true
+	}
+	return walk(p, 0)
+}
